@@ -88,9 +88,11 @@ class World:
 
     def ground_len_facts(self, formulas, depth=3):
         """Union of the per-formula ground list facts (cached per formula)."""
+        from .specs import len_args
         cache = self.__dict__.setdefault("_glf_cache", {})
         out = []
         seen = set()
+        nths, alls = {}, {}
         for f in formulas:
             k = f.get_id()
             if k not in cache:
@@ -100,6 +102,42 @@ class World:
                 if gi not in seen:
                     seen.add(gi)
                     out.append(g)
+            for a in len_args(self, f):
+                if isinstance(a, tuple) and a[0] == "nth":
+                    nths[a[1].get_id()] = a[1]
+                elif isinstance(a, tuple) and a[0] == "all":
+                    alls[a[1].get_id()] = a[1]
+        # all_nth for the list lifts of spec predicates:  P__all(l, e…) and 0 <= i < len l
+        #   ==>  P(nth l i, e…)      (Lean: all_nth)
+        S = self.S
+        def leaves(x):
+            if z3.is_app(x) and x.decl().kind() == z3.Z3_OP_ITE:
+                return leaves(x.arg(1)) + leaves(x.arg(2))
+            return [x]
+        for t in nths.values():
+            l, i = t.arg(0), t.arg(1)
+            lv = leaves(l)
+            for app in alls.values():
+                for leaf in lv:
+                    if app.arg(0).eq(leaf):
+                        base = app.decl().name()[:-len("__all")]
+                        sf = self.specs.get(base)
+                        if sf is None:
+                            continue
+                        ev = [app.arg(j) for j in range(1, app.num_args())]
+                        hyp = [app, i >= 0, i < S.len_l(l)]
+                        if not leaf.eq(l):
+                            hyp.append(l == leaf)
+                        out.append(z3.Implies(z3.And(hyp), sf.f(t, *ev)))
+            wfs = getattr(self, "wf", None)
+            if wfs is not None and len(lv) > 1:
+                for leaf in lv:
+                    for ty, g in list(wfs.lists.items()):
+                        inner = wfs.typefact(ty, t)
+                        if S._is_node_type(ty):
+                            inner = z3.And(inner, wfs.f(t))
+                        out.append(z3.Implies(z3.And(l == leaf, g(leaf), i >= 0, i < S.len_l(l)),
+                                              inner))
         return out
 
     def _ground_len_facts1(self, f, depth=3):
@@ -128,6 +166,8 @@ class World:
                     out.append(S.is_nil(t) == S.is_nil(t.arg(0))) if not (
                         t.decl().name().startswith("comp!") and
                         self._comp_has_filter(t.decl().name())) else None
+                    continue
+                if isinstance(a, tuple) and a[0] == "all":
                     continue
                 if isinstance(a, tuple) and a[0] == "rev":
                     # Lean: length_reverseAux'' / reverseAux_nil_iff
@@ -317,11 +357,31 @@ class Exec:
     def entails(self, c):
         return not self.feasible(z3.Not(c))
 
+    def entails_strong(self, c, timeout_ms=3000):
+        """Entailment through the full proving pipeline (used to settle the class of a node
+        before an attribute access).  Only `proved` counts."""
+        if self.entails(c):
+            return True
+        key = ("strong", tuple(x.get_id() for x in self.ctx.pc), c.get_id())
+        cache = self.w.feas_cache
+        if key not in cache:
+            from . import solve
+            ob = Obligation(self.fn_key, "internal", "class-of-node", list(self.ctx.pc), c, None)
+            for k_ in ("fuel", "facts_fuel"):
+                if k_ in (self.contract or {}):
+                    setattr(ob, k_, self.contract[k_])
+            solve.discharge(self.w, ob, timeout_ms)
+            cache[key] = ob.status == "proved"
+        return cache[key]
+
     def oblige(self, kind, name, goal, line=None, note=""):
         if self.spec_mode and kind == "safety":
             kind = "specwf"
-        if z3.is_true(z3.simplify(goal)):
-            pass
+        if kind == "safety" and getattr(self, "assuming", 0) > 0:
+            # evaluating a formula that is being ASSUMED (a callee's postcondition, a visitor
+            # hypothesis): partial operations inside it were justified where it was proved; here
+            # they neither need a proof nor may they add facts
+            return None
         ob = Obligation(self.fn_key, kind, name, self.ctx.pc, goal, line, note)
         self.ctx.obligations.append(ob)
         self.assume(goal)
@@ -530,11 +590,19 @@ class Exec:
         if known is None and not self.spec_mode:
             sorts_ = {S.field_is_list(c, name) for c in owners}
             if len(sorts_) > 1 or len(owners) <= 3:
-                ent = [c for c in owners if self.entails(S.rec(c)(t))]
+                ent = [c for c in owners if self.entails_strong(S.rec(c)(t))]
                 if len(ent) >= 1:
                     known = ent[0]
+                    self.assume(S.rec(known)(t))       # proved: keep it as a fact of the path
         if known is not None:
             a = S.acc(known, name)(t)
+            if not self.spec_mode and known in S.fields:
+                fty = [(ft, q) for fn_, ft, q in S.fields[known] if fn_ == name]
+                if fty and fty[0] == ("identifier", "") and not (
+                        z3.is_app(t) and t.decl().kind() == z3.Z3_OP_DT_CONSTRUCTOR):
+                    # grammar: an identifier field holds a str whenever the node is well-formed
+                    if self.entails_strong(self.P.is_PStr(a)):
+                        self.assume(self.P.is_PStr(a))
             return Z(a, fresh="deep" if v.fresh == "deep" else "no",
                      origin=f"{v.origin or '?'}.{name}")
         sorts = {S.field_is_list(c, name) for c in owners}
@@ -1026,6 +1094,11 @@ class Exec:
             raise Unsupported("`is` between two non-singleton objects (term view)")
         if isinstance(a, Ref) or isinstance(b, Ref):
             return z3.BoolVal(False)
+        for x, y in ((a, b), (b, a)):
+            if isinstance(x, (Bound, Obj)) and (y is None or (
+                    isinstance(y, Z) and y.t.sort() == self.S.Py and z3.is_app(z3.simplify(y.t))
+                    and z3.simplify(y.t).decl().name() == "PNone")):
+                return z3.BoolVal(False)        # a bound method / object is not None
         raise Unsupported(f"`is` between {a!r} and {b!r}")
 
     def contains_(self, container, item, line):
@@ -1193,6 +1266,12 @@ class Exec:
     def ev_Dict(self, e, env):
         if not e.keys:
             return self.new_map()
+        if all(isinstance(k, ast.Constant) and isinstance(k.value, str) for k in e.keys):
+            # a dict display with literal string keys: kept concrete (used for **kwargs)
+            o = Obj("cdict", {}, fresh="shallow")
+            for k, v in zip(e.keys, e.values):
+                o.attrs[k.value] = self.ev(v, env)
+            return o
         raise Unsupported("non-empty dict literal")
 
     def ev_DictComp(self, e, env):
@@ -1256,6 +1335,16 @@ class Exec:
             if f.kind == "astclass":
                 if f.name in ("Load", "Store", "Del"):
                     return Z(self.w.opaque("ctx"))
+                if "**" in kw:
+                    d = kw.pop("**")
+                    if not (isinstance(d, Obj) and d.cls == "cdict"):
+                        raise Unsupported("**kwargs of a non-literal dict")
+                    for k_, v_ in d.attrs.items():
+                        if k_ not in self.all_fields(f.name):
+                            # ast constructors accept unknown keywords as plain attributes;
+                            # nothing in the node model can hold them
+                            raise Unsupported(f"ast.{f.name}(**{{{k_!r}: …}}): not a field")
+                        kw[k_] = v_
                 return self.construct(f.name, args, kw, line)
             if f.kind == "libfunc":
                 h = self.w.libfuncs.get(f.name)
@@ -1277,7 +1366,7 @@ class Exec:
                 if h:
                     return h(self, args, kw, e, env)
                 cc = self.w.classes.get(f.name)
-                if cc is not None and not args and not kw:
+                if cc is not None and ((not args and not kw) or cc.get("ctor_any_args")):
                     from .contracts import eval_spec_expr
                     o = Obj(f.name, {}, fresh="shallow")
                     for a_, text in cc.get("init_state", {}).items():
@@ -1484,6 +1573,10 @@ class Exec:
             if isinstance(base, Obj) and base.cls == "dict":
                 k = self.ev(target.slice, env)
                 self.map_set(base, k, v, line)
+                return
+            if isinstance(base, Obj) and base.cls == "cdict" and \
+                    isinstance(target.slice, ast.Constant) and isinstance(target.slice.value, str):
+                base.attrs[target.slice.value] = v
                 return
             h = self.w.subscript_store
             if h and h(self, target, base, v, env, line):
